@@ -1,6 +1,6 @@
 package c17
 
-// Written window bounds (wave 5, bnd_*): the other parts put every valid_from /
+// Written window bounds (bnd_*): the other parts put every valid_from /
 // valid_until on a whole-second lattice, so a configuration compiler that reads
 // the written text differently (drops the fraction, mishandles a zone offset,
 // clamps an extreme year) was invisible. Here the dimension is the TEXT of a
